@@ -128,7 +128,14 @@ impl ReadBufPool {
                 resv: 0,
             });
         }
+        #[cfg(a10_verif)]
+        crate::verif::sync_point(crate::verif::SYNC_STORE_BUF_TAIL, ptr::from_ref(ring_tail));
         ring_tail.store(pool_size, Ordering::Release);
+        #[cfg(a10_verif)]
+        crate::verif::sync_point(
+            crate::verif::SYNC_STORE_BUF_TAIL | crate::verif::SYNC_AFTER,
+            ptr::from_ref(ring_tail),
+        );
 
         // NOTE: unpoisioned in ReadBufPool::release before usage and finally in
         // the Drop impl.
@@ -181,6 +188,8 @@ impl ReadBufPool {
         // Get a ring_buf we write into.
         // NOTE: that we allocated at least as many `io_uring_buf`s as we
         // did buffer, so there is always a slot available for us.
+        #[cfg(a10_verif)]
+        crate::verif::sync_point(crate::verif::SYNC_LOAD_BUF_TAIL, ptr::from_ref(ring_tail));
         let tail = ring_tail.load(Ordering::Acquire);
         let ring_idx = tail & self.tail_mask;
         let ring_buf = unsafe {
@@ -211,7 +220,14 @@ impl ReadBufPool {
         );
         // NOTE: poising the buffer again, unpoisoned in ReadBufPool::init_buffer.
         asan::poison_region(ptr.as_ptr().cast(), self.buf_size());
+        #[cfg(a10_verif)]
+        crate::verif::sync_point(crate::verif::SYNC_STORE_BUF_TAIL, ptr::from_ref(ring_tail));
         ring_tail.store(tail.wrapping_add(1), Ordering::Release);
+        #[cfg(a10_verif)]
+        crate::verif::sync_point(
+            crate::verif::SYNC_STORE_BUF_TAIL | crate::verif::SYNC_AFTER,
+            ptr::from_ref(ring_tail),
+        );
         unlock(guard);
     }
 
